@@ -569,6 +569,7 @@ func checkC12(w *World, r *Report) {
 	}
 	// ---------- C12.verbatim ----------
 	checkVerbatim(w, r, "C12.verbatim", flatten(ro.INIT))
+	importedAsGiven(w, r, "C12.verbatim")
 	r.Rule("C12.exportverbatim", "P4", "closed world: on the export trees no record obtained from a keeper is modified in place before it is exported, except the reviewed blanking of the burn state's account", 2)
 	checkExportVerbatim(w, r, "C12.exportverbatim", flatten(ro.EXPORT))
 	r.Rule("C12.importall", "P5", "every state write on a module's InitGenesis tree is executed unconditionally: at every level of the call chain it lies on every completing path of its function, every iteration of a loop around it passes it and the loop is never left early; only a test for an empty or absent list in front of the loop over that list, and exits that abort the import, may go round it", 8)
